@@ -1,0 +1,153 @@
+//go:build verif
+
+package disk
+
+import (
+	"sync/atomic"
+)
+
+// Instrumentation used only by the external verification harness
+// (build tag "verif"). Nothing in this file is compiled into normal builds.
+
+var verifHook atomic.Pointer[func(point string)]
+
+// VerifSetHook installs (or, with nil, removes) a callback that is invoked
+// at each verifYield point with the name of that point.
+func VerifSetHook(f func(point string)) {
+	if f == nil {
+		verifHook.Store(nil)
+		return
+	}
+	verifHook.Store(&f)
+}
+
+func verifYield(point string) {
+	if h := verifHook.Load(); h != nil {
+		(*h)(point)
+	}
+}
+
+// VerifEntry is a read-only copy of one index entry.
+type VerifEntry struct {
+	Key        string // "<keyspace>/<hash>"
+	Size       int64  // logical size
+	SizeOnDisk int64
+	Random     string
+	Legacy     bool
+}
+
+func verifUnwrap(c Cache) *diskCache {
+	switch v := c.(type) {
+	case *diskCache:
+		return v
+	case *metricsDecorator:
+		return v.diskCache
+	}
+	return nil
+}
+
+// VerifIndexSnapshot returns the index entries from most to least recently
+// used, without changing their order.
+func VerifIndexSnapshot(c Cache) []VerifEntry {
+	dc := verifUnwrap(c)
+	dc.mu.Lock()
+	defer dc.mu.Unlock()
+	out := make([]VerifEntry, 0, dc.lru.ll.Len())
+	for e := dc.lru.ll.Front(); e != nil; e = e.Next() {
+		kv := e.Value.(*entry)
+		out = append(out, VerifEntry{
+			Key:        kv.key,
+			Size:       kv.value.size,
+			SizeOnDisk: kv.value.sizeOnDisk,
+			Random:     kv.value.random,
+			Legacy:     kv.value.legacy,
+		})
+	}
+	return out
+}
+
+// VerifIndexMapLen returns the number of keys in the index map (which
+// should always equal the length of the recency list).
+func VerifIndexMapLen(c Cache) int {
+	dc := verifUnwrap(c)
+	dc.mu.Lock()
+	defer dc.mu.Unlock()
+	return len(dc.lru.cache)
+}
+
+// VerifQueuedEvictionBytes returns the number of bytes of files that have
+// left the index but have not yet been unlinked.
+func VerifQueuedEvictionBytes(c Cache) int64 {
+	return verifUnwrap(c).lru.queuedEvictionsSize.Load()
+}
+
+// VerifEntryPath returns the path (relative to the cache dir) at which the
+// cache expects the file of the given entry.
+func VerifEntryPath(c Cache, e VerifEntry) string {
+	dc := verifUnwrap(c)
+	return dc.getElementPath(e.Key, lruItem{size: e.Size, sizeOnDisk: e.SizeOnDisk, random: e.Random, legacy: e.Legacy})[len(dc.dir)+1:]
+}
+
+// VerifDir returns the resolved cache directory.
+func VerifDir(c Cache) string {
+	return verifUnwrap(c).dir
+}
+
+// VerifStopProxyWorkers terminates the backend "contains" workers of a
+// cache that will no longer be used, so that many short-lived caches in
+// one process do not accumulate goroutines.
+func VerifStopProxyWorkers(c Cache) {
+	dc := verifUnwrap(c)
+	if dc.containsQueue != nil {
+		close(dc.containsQueue)
+	}
+}
+
+// VerifLRU gives an external test direct access to a SizedLRU whose
+// item type is otherwise unexported.
+type VerifLRU struct {
+	lru     SizedLRU
+	Evicted []VerifEntry
+}
+
+func VerifNewLRU(maxSize int64, hardLimit int64) *VerifLRU {
+	v := &VerifLRU{}
+	v.lru = NewSizedLRU(maxSize, nil, 16)
+	v.lru.maxSizeHardLimit = hardLimit
+	return v
+}
+
+func (v *VerifLRU) drain() {
+	select {
+	case es := <-v.lru.queuedEvictionsChan:
+		for _, kv := range es {
+			v.Evicted = append(v.Evicted, VerifEntry{Key: kv.key, Size: kv.value.size, SizeOnDisk: kv.value.sizeOnDisk, Random: kv.value.random})
+			v.lru.queuedEvictionsSize.Add(-kv.value.sizeOnDisk)
+		}
+	default:
+	}
+}
+
+func (v *VerifLRU) Add(key string, size, sizeOnDisk int64, random string) bool {
+	ok := v.lru.Add(key, lruItem{size: size, sizeOnDisk: sizeOnDisk, random: random})
+	v.drain()
+	return ok
+}
+func (v *VerifLRU) Get(key string) (int64, bool) {
+	it, e := v.lru.Get(key)
+	return it.size, e != nil
+}
+func (v *VerifLRU) Remove(key string)       { v.lru.RemoveKey(key); v.drain() }
+func (v *VerifLRU) Reserve(n int64) error   { err := v.lru.Reserve(n); v.drain(); return err }
+func (v *VerifLRU) Unreserve(n int64) error { return v.lru.Unreserve(n) }
+func (v *VerifLRU) Stats() (int64, int64, int, int64) {
+	return v.lru.TotalSize(), v.lru.ReservedSize(), v.lru.Len(), v.lru.UncompressedSize()
+}
+func (v *VerifLRU) Snapshot() []VerifEntry {
+	out := []VerifEntry{}
+	for e := v.lru.ll.Front(); e != nil; e = e.Next() {
+		kv := e.Value.(*entry)
+		out = append(out, VerifEntry{Key: kv.key, Size: kv.value.size, SizeOnDisk: kv.value.sizeOnDisk, Random: kv.value.random})
+	}
+	return out
+}
